@@ -1286,6 +1286,9 @@ class QueryBuilder(Selectable, Term):  # type:ignore[misc]
             return Joiner(self, item, how, type_label="table")
 
         elif isinstance(item, Selectable):
+            if item.alias is None:
+                # an un-named set operation gets the next automatic name, like an un-named subquery
+                self._tag_subquery(item)  # type:ignore[arg-type]
             return Joiner(self, item, how, type_label="subquery")
 
         raise ValueError("Cannot join on type '%s'" % type(item))
